@@ -708,7 +708,8 @@ func HashSetIndex(vm *Thread, set *HashSetOfValue, val value.Value) (int, value.
 		// when we reach the start index
 		// all slots are checked
 		if index == startIndex {
-			return -1, value.Undefined
+			// there are no empty slots, reuse a deleted one if there is any
+			return deletedIndex, value.Undefined
 		}
 	}
 }
